@@ -252,7 +252,7 @@ def run(ctx):
         # writes performed by the region through its environment / arguments
         w = [x for x in effects.summaries().get(clos, ()) if x[0] == 1]
         ctx.require(not w, "P5", "envwrite|" + b.short, "parallel closure writes nothing through its environment", "parallel closure writes through its environment: %s" % sorted(w, key=str)[:3], loc_str(t.span))
-    ctx.floor("P5", "parallel_regions", len(regions), 4)
+    ctx.floor("P5", "parallel_regions", len(regions), 2)
 
     # thread count flows only into branch conditions
     tc_switches = []
@@ -325,7 +325,7 @@ def run(ctx):
                 ctx.ok("P6", key, "serial/parallel arms of %s agree: %s" % (b.short, "; ".join(sorted(fmt_feature(f) for f in feats[0]))[:300]), site)
             else:
                 ctx.violation("P6", key, "serial and parallel arms of %s differ: %s" % (b.short, why), site)
-    ctx.floor("P6", "thread_count_branches", n_pairs, 4)
+    ctx.floor("P6", "thread_count_branches", n_pairs, 2)
 
     # ------------------------------------------------------------------ P7 hash order
     ctx.rule("P7", "no hash-order-sensitive sink over a RandomState container inside a parallel region; after the join only collect-into-map (and the documented set-like Vec of get_all_shortest_paths_involving)")
@@ -365,7 +365,7 @@ def run(ctx):
             ctx.violation("P7", key, "post-join %s sink over RandomState container in %s: %s" % (w, s.body.short, [x[2] for x in s.consumers][:2]), loc_str(s.create.span))
     ctx.counters["bodies_in_parallel_regions"] = len(region_bodies)
     ctx.counters["hash_sites_in_regions"] = n_in
-    ctx.floor("P7", "bodies_in_parallel_regions", len(region_bodies), 15)
+    ctx.floor("P7", "bodies_in_parallel_regions", len(region_bodies), 8)
 
 
 def compare_features(flows, A, B, depth=0):
